@@ -13,6 +13,7 @@ fi
 mkdir -p scratch/sweep
 bad=0
 for id in "${IDS[@]}"; do for s in "${SEEDS[@]}"; do
+  if [ -n "${SKIP_EXISTING:-}" ] && [ -e "scratch/sweep/$id.$TIER.$s.log" ]; then continue; fi
   t0=$(date +%s)
   VERIF_SEED=$s timeout ${SWEEP_TIMEOUT:-3600} ./check "$id" "$TIER" > "scratch/sweep/$id.$TIER.$s.log" 2>&1; rc=$?
   t1=$(date +%s)
